@@ -155,3 +155,19 @@ Theorem C17_clamped_setpoint_refuted :
   (forall vmax v d, 0 < vmax -> vmax < v -> 0 < d -> qclamp vmax v * (d / v) < d).
 Proof. split; [exact clamped_setpoint_refuted|exact clamped_setpoint_short]. Qed.
 Print Assumptions C17_clamped_setpoint_refuted.
+
+(* Multi-session histories on one Crazyflie object: the hover packet type (legacy 5 with negated yaw rate / 10) is a function
+   of the protocol version read AT SEND TIME.  For EVERY history of (version in force, commanded yaw rate) the firmware of
+   the respective session understands every packet and decodes exactly the commanded yaw rate (direction included). *)
+Theorem C17_packet_type_follows_session_version : forall h : list (Z * Z),
+  fw_receive h (send_now h) = map (fun vy => Some (snd vy)) h.
+Proof. exact send_now_understood. Qed.
+Print Assumptions C17_packet_type_follows_session_version.
+
+(* ... while a choice cached at first use is wrong as soon as the version changes: current firmware, then protocol-8 firmware:
+   the second session's setpoint is dropped *)
+Theorem C17_cached_packet_type_refuted :
+  exists h : list (Z * Z), fw_receive h (send_cached h) <> map (fun vy => Some (snd vy)) h
+                           /\ fw_receive h (send_cached h) = [Some 72%Z; None].
+Proof. exact send_cached_refuted. Qed.
+Print Assumptions C17_cached_packet_type_refuted.
